@@ -277,6 +277,14 @@ func sigReason(reason, typ string) string {
 	return reason + ":" + typ
 }
 
+// quickFirst: first bytes whose length-3 strings the quick tier enumerates completely.
+var quickFirst = func() (m [256]bool) {
+	for _, b := range []byte{0x00, 0x7f, 0x80, 0x81, 0x82, 0x83, 0xb7, 0xb8, 0xb9, 0xbf, 0xc0, 0xc1, 0xc2, 0xc3, 0xf7, 0xf8, 0xf9, 0xff} {
+		m[b] = true
+	}
+	return
+}()
+
 var garbage = []byte{0x80, 0x80, 0x80, 0x80}
 
 // ------------------------------------------------------------------ oracle: one (input, type)
@@ -1010,11 +1018,13 @@ func run(c *fw.Ctx) {
 	c.Count("grammar_inputs", ng)
 	c.Sample(map[string]string{"part": "decode+alloc", "in": "c9 bf ffffffffffffffff", "types": "all"})
 	phase("grammar")
-	// (i) continued: byte strings of length 3.  thorough: all of them.  quick: those whose
-	// first byte starts a header (>= 0x80) or is one of the single-byte representatives 0x00, 0x7f
-	// (a first byte < 0x80 makes the rest trailing data, which lengths 1..2 already cover).
+	// (i) continued: byte strings of length 3.  thorough: all 2^24.  quick: every string whose
+	// first byte is in quickFirst (one or more representatives of every header class: single
+	// byte, short string 0..3 and 55, long string with 1, 2 and 8 length bytes, short list 0..3
+	// and 55, long list with 1, 2 and 8 length bytes) x all 65536 tails.
 	for x := 0; x < 1<<24; x++ {
-		if !c.Thorough() && x>>16 < 0x80 && x>>16 != 0x00 && x>>16 != 0x7f {
+		if !c.Thorough() && !quickFirst[byte(x>>16)] {
+			x |= 0xffff // skip the whole first-byte class
 			continue
 		}
 		if !r.mine() {
@@ -1088,7 +1098,7 @@ func main() {
 	fw.Main(fw.Check{
 		ID: "C08", Level: "exploration",
 		Rule: "cases = (byte string, target type) pairs, each enumerated once (distinct by construction): every byte string of length <= 2, every length-3 string " +
-			"(quick: first byte >= 0x80 or in {0x00,0x7f}; thorough: all 2^24, plus all length-4 strings 0xC3****** against the list-kind targets), the header grammar " +
+			"(quick: first byte in {00,7f,80,81,82,83,b7,b8,b9,bf,c0,c1,c2,c3,f7,f8,f9,ff} x all 65536 tails; thorough: all 2^24, plus all length-4 strings 0xC3****** against the list-kind targets), the header grammar " +
 			"(kind x every header form x 14 declared sizes up to 2^64-1 x payload lengths {n,n-1,n+1,0,1,2} x fillers x 8 nesting wrappers) and all single and double " +
 			"field substitutions (45 canonical/non-canonical field encodings) in the struct encodings of account.Account, eth_tx.Transaction and the tagged test structs, " +
 			"each against the target types, plus encode->decode round trips over per-type value alphabets. " +
@@ -1101,9 +1111,9 @@ func main() {
 		Run: run, Replay: replay,
 		Budget: func(t string) time.Duration {
 			if t == "thorough" {
-				return 17 * time.Minute
+				return 16 * time.Minute
 			}
-			return 45 * time.Second
+			return 100 * time.Second
 		},
 	})
 }
